@@ -270,6 +270,9 @@ func c02Run(rc *RunCtx, params any) {
 
 		return
 	}
+	// liveness is decided by the step budget (no progress in virtual time), not by how many
+	// datagrams a handshake costs: emission storms that still complete are C17's business
+	s.MaxEmits = 0
 	pair.StartHandshakes(0)
 	for {
 		limit := n.LastFaultAt + c02Bound
@@ -288,6 +291,9 @@ func c02Run(rc *RunCtx, params any) {
 		faults += c
 	}
 	rc.R.NonTriv = faults > 0
+	if s.Overrun() {
+		return // reported by the worker as a livelock / storm, not as a stall
+	}
 	switch {
 	case !pair.BothDone():
 		rc.Violate(fmt.Sprintf("stall:%s:c@%s:s@%s", v.Name, pair.Env.FSMState("c"), pair.Env.FSMState("s")), "handshake did not complete within %v after the last fault (t=%v): client done=%v err=%v, server done=%v err=%v",
@@ -332,10 +338,11 @@ func bucket(x int) int {
 
 func init() {
 	Register(&Scenario{
-		ID:        "C02",
-		Counts:    c02Counts,
-		Gen:       c02Gen,
-		NewParams: func() any { return &C02Params{} },
-		Run:       c02Run,
+		ID:              "C02",
+		BudgetIsVerdict: true,
+		Counts:          c02Counts,
+		Gen:             c02Gen,
+		NewParams:       func() any { return &C02Params{} },
+		Run:             c02Run,
 	})
 }
